@@ -84,6 +84,7 @@ pub fn gen_stream(name: &str, seed: u64, n: usize, tier: &str) -> Vec<String> {
             .collect(),
         "run_softfork_args" => progs::generate_run_softfork_args(&mut rng, n, tier),
         "op_fastpath" => progs::generate_op_fastpath(&mut rng, n, tier),
+        "run_small_values" => progs::generate_run_small_values(&mut rng, n, tier),
         "op_limits" => progs::generate_op_limits(&mut rng, n, tier),
         "run_default" => progs::generate_run(&mut rng, n, tier, &["chia"], "default"),
         "op" => progs::generate_op(&mut rng, n, tier, None),
